@@ -29,7 +29,8 @@ RULE = ("case = random diagram (2-8 boxes, width 0-5, states/effects/scalars/"
         "left) requests when it has <= 6 boxes (sampled above) + out-of-range "
         "indices + a random walk of <= 20 interchanges in lock-step with the "
         "model.  Non-trivial = at least one successful move of distance >= 1 "
-        "and one refusal or ambiguous exchange; distinct by diagram repr.")
+        "and one refusal or ambiguous exchange; distinct by diagram repr."
+        "  Also: 40% of inputs obtained through subs/lambdify/double dagger/slice/identities (provenance); the same requests on a look-alike twin (same repr, other content or class).")
 SIZES = {"quick": (16, 190), "thorough": (16, 5000)}
 TIMEOUT = {"quick": 600, "thorough": 5400}
 COVER = {"discopy.rewriting:interchange": 0.97}
